@@ -182,6 +182,14 @@ impl StorageEngine {
         Ok(&database.shards[shard_idx])
     }
     
+    /// Refuse a time-to-live whose deadline cannot be represented (Instant + Duration would overflow)
+    fn check_ttl(expires_in: Duration) -> Result<()> {
+        if Instant::now().checked_add(expires_in).is_none() {
+            return Err(FerrousError::Command(CommandError::Generic("invalid expire time".to_string())));
+        }
+        Ok(())
+    }
+    
     /// Set a string value
     pub fn set_string(&self, db: DatabaseIndex, key: Key, value: Vec<u8>) -> Result<()> {
         self.set_value(db, key, Value::string(value), None)
@@ -220,6 +228,7 @@ impl StorageEngine {
     
     /// Set a string value with expiration only if the key doesn't exist (atomic operation)
     pub fn set_string_nx_ex(&self, db: DatabaseIndex, key: Key, value: Vec<u8>, expires_in: Duration) -> Result<bool> {
+        Self::check_ttl(expires_in)?;
         let shard = self.get_shard(db, &key)?;
         let mut shard_guard = shard.write().unwrap();
         
@@ -248,6 +257,9 @@ impl StorageEngine {
     
     /// Set any value - optimized with sharded simple structure, no access time tracking
     pub fn set_value(&self, db: DatabaseIndex, key: Key, value: Value, expires_in: Option<Duration>) -> Result<()> {
+        if let Some(expires_in) = expires_in {
+            Self::check_ttl(expires_in)?;
+        }
         let shard = self.get_shard(db, &key)?;
         let mut shard_guard = shard.write().unwrap();
         
@@ -348,6 +360,7 @@ impl StorageEngine {
     
     /// Set expiration on a key
     pub fn expire(&self, db: DatabaseIndex, key: &[u8], expires_in: Duration) -> Result<bool> {
+        Self::check_ttl(expires_in)?;
         let shard = self.get_shard(db, key)?;
         let mut shard_guard = shard.write().unwrap();
         
